@@ -11,7 +11,8 @@ from . import common as C
 class Engine:
     """One D1 correspondence engine: a family of cases understood by both line drivers."""
     name = "?"
-    crate = "seqdrv"
+    crate = "seqdrv"      # harness crate under /verif/harness
+    exe = "?"             # binary in that crate (src/bin/<exe>.rs) and model driver modelrun_<exe>
 
     def gen(self, rng, tier):
         """return one case line (str) generated from rng"""
@@ -112,17 +113,18 @@ class Run:
     # ---- tie gate
     def d1(self, engines):
         """differential run of all engines; returns list of mismatch records"""
-        model = C.build_model()
         mism = []
         impl_exes = {}
+        models = {}
         for eng in engines:
-            if eng.crate not in impl_exes:
-                exe, err = C.build_harness(eng.crate)
+            if eng.exe not in impl_exes:
+                exe, err = C.build_harness(eng.crate, eng.exe)
                 if exe is None:
                     path = C.write_replay(self.prop, {"kind": "harness-build-failed", "crate": eng.crate, "log": err[-6000:]})
                     self.violations.append((path, "no-failing-input-found"))
                     return None
-                impl_exes[eng.crate] = exe
+                impl_exes[eng.exe] = exe
+                models[eng.exe] = C.build_model(eng.exe)
         for eng in engines:
             corpus = eng.corpus()
             n = eng.n_cases(self.tier)
@@ -130,9 +132,9 @@ class Run:
             for i in range(n):
                 cases.append(eng.gen(C.Rng(self.seed, eng.name, i), self.tier))
             t1 = time.time()
-            impl = C.run_lines(impl_exes[eng.crate], cases, shards=16)
+            impl = C.run_lines(impl_exes[eng.exe], cases, shards=16)
             t2 = time.time()
-            mod = C.run_lines(model, cases, shards=16)
+            mod = C.run_lines(models[eng.exe], cases, shards=16)
             t3 = time.time()
             shapes = set()
             hist = {}
@@ -161,12 +163,12 @@ class Run:
             self.cov["disagreements_checked"] += len(cases)
             self._monitor_hits = getattr(self, "_monitor_hits", []) + mon_hits
         self._impl_exes = impl_exes
-        self._model = model
+        self._models = models
         return mism
 
     def run_one(self, eng, line):
-        a = C.run_lines(self._impl_exes[eng.crate], [line], shards=1)[0]
-        b = C.run_lines(self._model, [line], shards=1)[0]
+        a = C.run_lines(self._impl_exes[eng.exe], [line], shards=1)[0]
+        b = C.run_lines(self._models[eng.exe], [line], shards=1)[0]
         return eng.canon(a), eng.canon(b)
 
     def shrink_mismatch(self, rec):
@@ -190,13 +192,13 @@ class Run:
 
         def test(o):
             line = eng.join(hdr, o)
-            a = eng.canon(C.run_lines(self._impl_exes[eng.crate], [line], shards=1)[0])
+            a = eng.canon(C.run_lines(self._impl_exes[eng.exe], [line], shards=1)[0])
             return any(c == clause for c, _ in eng.monitor(line, a))
 
         if len(ops) <= 400:
             ops = ddmin(ops, test)
         line = eng.join(hdr, ops)
-        a = eng.canon(C.run_lines(self._impl_exes[eng.crate], [line], shards=1)[0])
+        a = eng.canon(C.run_lines(self._impl_exes[eng.exe], [line], shards=1)[0])
         det = [d for c, d in eng.monitor(line, a) if c == clause]
         return {"engine": eng, "case": line, "impl": a, "clause": clause, "detail": det[0] if det else hit["detail"]}
 
@@ -249,7 +251,7 @@ def standard(prop, tier, seed, engines, assumptions, known_witnesses=None, extra
         s = r.shrink_monitor(h)
         path = C.write_replay(prop, {"kind": "property-monitor", "engine": s["engine"].name, "case": s["case"],
                                      "impl_output": s["impl"], "clause": s["clause"], "detail": s["detail"],
-                                     "replay": "echo '%s' | .build/target/release/%s" % (s["case"], s["engine"].crate)})
+                                     "replay": "echo '%s' | .build/target/release/%s" % (s["case"], s["engine"].exe)})
         r.violations.append((path, ""))
 
     # 2. correspondence mismatches
@@ -285,7 +287,7 @@ def standard(prop, tier, seed, engines, assumptions, known_witnesses=None, extra
         if not w:
             continue
         eng, line, clause = w
-        a = eng.canon(C.run_lines(r._impl_exes[eng.crate], [line], shards=1)[0])
+        a = eng.canon(C.run_lines(r._impl_exes[eng.exe], [line], shards=1)[0])
         if any(c == clause for c, _ in eng.monitor(line, a)):
             r.known_lines.append("KNOWN-FINDING: property=%s id=%s %s" % (prop, k["id"], k["what"]))
             r.cov.setdefault("known_findings_replayed", []).append({"id": k["id"], "witness": line, "impl_output": a})
